@@ -17,7 +17,10 @@ from . import refimpl as R
 from .common import ToolError, driver_path
 
 LANES = {"S": ("sync", True), "As": ("asyncstd", True), "Aa": ("asyncstd", False),
-         "Ts": ("tokio", True), "Ta": ("tokio", False)}
+         "Ts": ("tokio", True), "Ta": ("tokio", False),
+         # the blocking API of a build WITHOUT the mmap feature (not in ALL_LANES: used where the
+         # memory map matters - declared sizes)
+         "P": ("plain", True)}
 ALL_LANES = ["S", "As", "Aa", "Ts", "Ta"]
 WATCHDOG_S = 30.0
 
@@ -270,6 +273,9 @@ def _nest_of(v):
     """{"nest": n, "obj": bool, "leaf": x} if v is x wrapped n > 60 times in one-element arrays
     (or {"a": ..} objects), else None: such values are rebuilt inside the driver, a request
     cannot carry them through a JSON parser with a recursion limit"""
+    if isinstance(v, dict) and sorted(v) == ["note", "tree"] and isinstance(v["note"], str):
+        inner = _nest_of(v["tree"])
+        return None if inner is None else dict(inner, note=v["note"])
     n, cur = 0, v
     obj = isinstance(v, dict)
     while True:
@@ -287,7 +293,7 @@ def _nest_of(v):
 
 class Session:
     def __init__(self, workdir, universe=None, reflink=False, exact=False, total=False, layout=False,
-                 relcache=False, fullfs=0):
+                 relcache=False, fullfs=0, oddroot=False, twofs=False):
         self.dir = workdir
         os.makedirs(workdir, exist_ok=True)
         self.u = universe or Universe()
@@ -311,6 +317,8 @@ class Session:
         self.layout_quiet = False
         self.relcache = relcache   # the cache directory is passed as a RELATIVE path
         self.fullfs = fullfs       # KiB of a private tmpfs holding the cache (0 = the ordinary file system)
+        self.oddroot = oddroot
+        self.twofs = twofs         # (inside a private mount namespace) cache and destinations on two fresh tmpfs
         self.new_cache()
 
     # ------------------------------------------------------------ lifecycle
@@ -318,12 +326,24 @@ class Session:
         for h in list(self.handles):
             self._drop_silently(h)
         self.ncache += 1
+        self.tracked_modes = set()
         base = os.path.join(self.dir, "c%d" % self.ncache)
         shutil.rmtree(base, ignore_errors=True)
         self.root = os.path.join(base, "cache")
+        if getattr(self, "oddroot", False):
+            # the cache lives under a directory whose name is not valid UTF-8 (and has a space and a
+            # non-ASCII character): paths are byte strings, nothing may pass through a lossy text form
+            self.root = os.path.join(base, "d\udce9\udcff r\u00e9p", "cache")
         self.extdir = os.path.join(base, "ext")
         os.makedirs(self.root)
         os.makedirs(self.extdir)
+        if getattr(self, "twofs", False):
+            # two FRESH file systems: inode numbers start over on each, so a destination can carry
+            # the very inode number of a content file - on another device
+            for mp in (self.root, self.extdir):
+                r_ = subprocess.run(["mount", "-t", "tmpfs", "-o", "size=16m", "tmpfs", mp], capture_output=True, text=True)
+                if r_.returncode != 0:
+                    raise ToolError("cannot mount a tmpfs at %s: %s" % (mp, r_.stderr))
         if self.trace:
             self.trace.append({"ev": "reset"})
         self.prev_inv = None
@@ -408,6 +428,13 @@ class Session:
                         ext.append({"id": name, "b": self.u.blob_id_of_bytes(f.read())})
                 except OSError:
                     ext.append({"id": name, "b": "UNREADABLE"})
+        for xid in sorted(getattr(self, "tracked_modes", ())):
+            p = os.path.join(self.extdir, xid)
+            try:
+                ext.append({"id": xid + "#mode", "b": "mode-%o" % (os.lstat(p).st_mode & 0o777)})
+            except OSError:
+                pass
+        ext.sort(key=lambda e: e["id"])
         return {"buckets": buckets, "store": store, "ext": ext, "tmp": len(inv["tmp"]),
                 "hasIndex": inv["has_index"], "other": inv["other"]}
 
@@ -528,11 +555,21 @@ class Session:
             sp = self._sp_rng.choice(["rel", "rel", "slash", "dots", "symlink"])
             if req.pop("_force_rel", False):
                 sp = "rel"
+            elif req.get("op") in ("open_writer", "open_linker") and sp == "rel":
+                # a handle keeps the path it was opened with: a relative one would be resolved
+                # wherever the co-process happens to be when the handle is committed (only the
+                # deliberate force_rel writers do that, and their commits are kept in a scratch
+                # directory)
+                sp = "dots"
             elif isinstance(req.get("target"), str) and not os.path.isabs(req["target"]):
                 sp = "slash"            # (a relative link target was computed for the current directory)
             if sp == "rel":
                 if self.cwd.get(fl) != base:
-                    r = self.driver(fl).call({"op": "chdir", "dir": base})
+                    try:
+                        base.encode("utf-8")
+                        r = self.driver(fl).call({"op": "chdir", "dir": base})
+                    except UnicodeEncodeError:
+                        r = self.driver(fl).call({"op": "chdir", "dir_hex": os.fsencode(base).hex()})
                     if not r.get("ok"):
                         raise ToolError("chdir failed: %r" % r)
                     self.cwd[fl] = base
@@ -548,6 +585,14 @@ class Session:
                 req["cache"] = lk
         req.pop("_force_rel", None)
         req.setdefault("cache", self.root)
+        for k_ in ("cache", "dir"):
+            v_ = req.get(k_)
+            if isinstance(v_, str):
+                try:
+                    v_.encode("utf-8")
+                except UnicodeEncodeError:
+                    # a path that is not valid UTF-8 (the session's cache may live under one)
+                    req[k_ + "_hex"] = os.fsencode(req.pop(k_)).hex()
         self.ncalls += 1
         try:
             return self.driver(fl).call(req)
@@ -643,6 +688,17 @@ class Session:
             return t, ok
         return "0", True
 
+    def oneshot_pid1(self, lane, reqs):
+        """the requests in a process of its own that is PID 1 of a fresh pid namespace (as every
+        container start is): whatever the library derives from its process id repeats"""
+        fl, _ = LANES[lane]
+        for r in reqs:
+            r.setdefault("cache", self.root)
+        p = subprocess.run(["unshare", "-Urpf", driver_path(fl), "ops", json.dumps(reqs)],
+                           capture_output=True, text=True, timeout=120)
+        lines = [json.loads(l) for l in p.stdout.splitlines() if l.strip()]
+        return lines, p.returncode
+
     # ---- writes
     def _do_write(self, st, lane):
         blob = self.u.blobs[st["data"]]
@@ -662,7 +718,11 @@ class Session:
             st["_owner"] = st["key"]
         if algo == "xxh3":
             self.u.xxh3_hex(st["data"])
-        resp = self.raw_call(lane, req)
+        if st.get("pid1"):
+            lines, rc = self.oneshot_pid1(lane, [req])
+            resp = lines[-1] if lines else {"ok": False, "died": rc}
+        else:
+            resp = self.raw_call(lane, req)
         if resp.get("ok"):
             return sop, resp, {"ok": True, "v": self.u.sri_abs(resp["val"])}
         return sop, resp, None
@@ -898,8 +958,17 @@ class Session:
         sop = {"op": "w_commit", "h": h, "fed": fed_id}
         # (decided by where the process IS when it commits: in an interleaved program another
         # call may have moved it back)
-        elsewhere = bool(st.get("elsewhere") and info.get("rel_open") and not info.get("gone")
-                         and self.cwd.get(fl) == os.path.join(self.dir, "elsewhere-cwd"))
+        ed_ = os.path.join(self.dir, "elsewhere-cwd")
+        if info.get("rel_open") and self.cwd.get(fl) not in (os.path.dirname(self.root), ed_):
+            # an interleaved part moved this co-process somewhere else (the external files'
+            # directory, "/"): a relative cache path would be resolved THERE.  The harness keeps
+            # such commits inside its own scratch directory.
+            os.makedirs(ed_, exist_ok=True)
+            r_ = self.driver(fl).call({"op": "chdir", "dir": ed_})
+            if not r_.get("ok"):
+                raise ToolError("chdir failed: %r" % r_)
+            self.cwd[fl] = ed_
+        elsewhere = bool(info.get("rel_open") and not info.get("gone") and self.cwd.get(fl) == ed_)
         if elsewhere:
             # opened through a relative cache path, committed from another working directory:
             # everything lands in the cache that path names NOW; this cache only loses the temp file
@@ -1007,13 +1076,24 @@ class Session:
             resp = self._hcall(h, {"op": "r_read_all", "n": st["n"]})
             n_spec = 1 << 30
         else:
-            resp = self._hcall(h, {"op": "r_read", "n": st["n"]})
+            req = {"op": "r_read", "n": st["n"]}
+            fl_ = self.handles[h][0]
+            hl_ = info.get("lane", lane)        # (the lane the HANDLE was opened on decides its type)
+            if st.get("split") and (LANES[hl_][1] or fl_ == "asyncstd"):
+                # Read::read_vectored / AsyncReadExt::read_vectored: ONE call filling several buffers
+                # (tokio's AsyncRead has no vectored read: a plain read of the same total there)
+                req["split"] = [min(x, st["n"]) for x in st["split"]]
+            resp = self._hcall(h, req)
             n_spec = st["n"]
         sop = {"op": "l_read" if info["kind"] == "linker" else "r_read", "h": h, "n": n_spec,
                "slice_ok": False}
         if resp.get("ok"):
             v = resp["val"]
             cnt = v["len"]
+            if st.get("split") and 0 < cnt <= st["n"]:
+                # a scatter read may fill fewer buffers than it was given (the provided
+                # read_vectored fills the first non-empty one): any count up to the total is fine
+                sop["n"] = cnt
             snap = info["snap"] or b""
             exp = snap[info["pos"]:info["pos"] + cnt]
             sop["slice_ok"] = (hashlib.sha256(exp).hexdigest() == v["sha256"] and len(exp) == cnt)
@@ -1171,8 +1251,11 @@ class Session:
         finally:
             self.layout_quiet = False
 
-    def env_set_ext(self, xid, data):
+    def env_set_ext(self, xid, data, mode=None):
         p = self.ext_path(xid)
+        tracked = getattr(self, "tracked_modes", None)
+        if tracked is None:
+            tracked = self.tracked_modes = set()
         if data is None:
             try:
                 os.unlink(p)
@@ -1184,6 +1267,26 @@ class Session:
                 f.write(data)
             b = [self.u.blob_id_of_bytes(data)]
         self.trace.append({"ev": "env", "op": {"op": "env_ext", "id": xid, "b": b}})
+        # the permission bits of an external file are part of the projection once the harness has
+        # set them (pseudo entry "<id>#mode"): no library call may change them
+        if data is None and xid in tracked:
+            tracked.discard(xid)
+            self.trace.append({"ev": "env", "op": {"op": "env_ext", "id": xid + "#mode", "b": []}})
+        elif data is not None and mode is not None:
+            os.chmod(p, mode)
+            tracked.add(xid)
+            self.trace.append({"ev": "env", "op": {"op": "env_ext", "id": xid + "#mode", "b": ["mode-%o" % mode]}})
+        self._quiet_state()
+
+    def env_chmod(self, xid, mode):
+        p = self.ext_path(xid)
+        if not os.path.lexists(p) or os.path.islink(p):
+            return
+        os.chmod(p, mode)
+        if not hasattr(self, "tracked_modes"):
+            self.tracked_modes = set()
+        self.tracked_modes.add(xid)
+        self.trace.append({"ev": "env", "op": {"op": "env_ext", "id": xid + "#mode", "b": ["mode-%o" % mode]}})
         self._quiet_state()
 
     def content_path(self, algo, blob_id):
@@ -1415,6 +1518,18 @@ def run_program(sess, prog, on_step=None):
                 sess.trace.append({"ev": "env", "op": {"op": "env_stray"}})
                 results.append(None)
                 continue
+            elif act == "age_all":
+                # time passes: everything in the cache directory (temp files of writers that are still
+                # open included) looks two hours old - nothing may be reclaimed for being "stale"
+                old_t = time.time() - 7200
+                for dp, dns, fns in os.walk(sess.root):
+                    for n_ in fns + dns:
+                        try:
+                            os.utime(os.path.join(dp, n_), (old_t, old_t), follow_symlinks=False)
+                        except OSError:
+                            pass
+                results.append(None)
+                continue
             elif act == "root_symlink_ext":
                 # a symbolic link directly under the cache root pointing at the directory of the
                 # external files: nothing a removal does may pass through it
@@ -1430,6 +1545,24 @@ def run_program(sess, prog, on_step=None):
                 os.makedirs(os.path.dirname(bp), exist_ok=True)
                 open(bp, "wb").close()
             sess.trace.append({"ev": "env", "op": {"op": "env_raw", "action": act}})
+            results.append(None)
+            continue
+        if op == "pid1_abandon":
+            # a process that is PID 1 of its namespace opens a writer, feeds it and DIES: its temp
+            # file stays (Cacache!EnvTmp); later processes - PID 1 again - must not trip over it
+            lane = st.get("lane", "S")
+            blob = sess.u.blobs[st["data"]]
+            before = sess.project()["tmp"]
+            ow = {"op": "open_writer", "sync": LANES[lane][1], "via": "opts", "opts": {"algo": "sha256"}}
+            if "key" in st:
+                ow["key"] = sess.u.keys[st["key"]]
+            sess.oneshot_pid1(lane, [ow, {"op": "w_write", "h": 1, "data": blob.spec, "all": True}, {"op": "die"}])
+            after = sess.project()
+            sess.prev = after
+            sess.norphan = getattr(sess, "norphan", 0) + 1
+            sess.trace.append({"ev": "env", "op": {"op": "env_tmp", "n": 1 if after["tmp"] > before else 0,
+                                                   "h": "orphan%d" % sess.norphan}})
+            sess._quiet_state()
             results.append(None)
             continue
         if op in ("fs_fill", "fs_free"):
@@ -1453,7 +1586,11 @@ def run_program(sess, prog, on_step=None):
             continue
         if op == "env_ext":
             b = st.get("blob")
-            sess.env_set_ext(st["id"], None if b is None else sess.u.blobs[b].bytes())
+            sess.env_set_ext(st["id"], None if b is None else sess.u.blobs[b].bytes(), mode=st.get("mode"))
+            results.append(None)
+            continue
+        if op == "env_chmod":
+            sess.env_chmod(st["id"], st["mode"])
             results.append(None)
             continue
         if op == "env_content":
